@@ -195,6 +195,7 @@ m(["C23"], "timer-id-not-taken-at-start", "src/time_out.rs", "    let timer_id =
 m(["C24"], "self-guard-removed", "src/solution_node.rs",
   "                            if !std::ptr::eq(raw_ptr2, self as *const Self) {\n                                (*raw_ptr2).no_backtracking = true;\n                            }",
   "                            (*raw_ptr2).no_backtracking = true;", "R3a/raw-write(via-head_sn)")
+m(["C22"], "leaked-depth-guard-on-feature", "src/solution_node.rs", None, None, "R2/reset(SEARCH_DEPTH)")   # hand-written: feature F44 (thread-local depth statistics with a Drop guard) + one path that forgets the guard
 m(["C24"], "stop-flag-static-mut-again", "src/time_out.rs", None, None, "R2/race(SUIRON_STOP_QUERY)")
 
 def main():
